@@ -181,7 +181,8 @@ class Ctx:
                   wall_s=round(time.time() - self.t0, 2), violations=len(self.violations))
         if not cov['samples']:
             cov['samples'] = ['(none)']
-        evdir = os.environ.get('VERIF_EVIDENCE_DIR') or os.path.join(VERIF, 'evidence')
+        # extension specs (ids X..: behaviour beyond the listed properties) keep their evidence apart
+        evdir = os.environ.get('VERIF_EVIDENCE_DIR') or os.path.join(VERIF, 'evidence_ext' if self.pid.startswith('X') else 'evidence')
         os.makedirs(evdir, exist_ok=True)
         with open(os.path.join(evdir, self.pid + '.json'), 'w') as f:
             json.dump(ev, f, indent=1, default=str)
